@@ -99,7 +99,7 @@ def contracts():
             ("before_stmt", "Err(", 1, "proof { lemma_first_legacy_unique(self.identifiers@, identifier_0@); lemma_first_exact_unique(self.identifiers@, crate::certificate::exact_name(identifier_0@, wildcard)); }")],
         rewrites=[("T-FMT", r"format!\((?P<f>\"\*\.\{identifier\}\")\)", lambda m: fmt_to_cat(m.group("f"), "crate::venv::cat2")),
                   ("T-STR", r"d\.value\.trim_start_matches\(\"\*\.\"\)\.(?:to_string|to_owned)\(\)", 'crate::venv::trim_start_matches_str(&d.value, "*.")')])
-    c["call_challenge_hooks"] = FnSpec(ret="r", ghost=True, sig="""
+    c["call_challenge_hooks"] = FnSpec(ret="r", ghost=True, body_start="broadcast use crate::certificate::axiom_hooks_of_certificate;", sig="""
     ensures final(w).clock == old(w).clock, final(w).admissions == old(w).admissions, final(w).net == old(w).net,
         final(w).fs.files == old(w).fs.files, final(w).fs.modes == old(w).fs.modes,
         r matches Ok(t) ==> chosen(self.identifiers@, identifier@, wildcard) matches Some(id) && ({
@@ -121,12 +121,12 @@ def contracts():
             assert(p.union_prefer_right(p.union_prefer_right(Map::<Seq<char>, Seq<char>>::empty()).union_prefer_right(c)).union_prefer_right(i)
                    =~= p.union_prefer_right(c).union_prefer_right(i));
         }""")])
-    c["call_challenge_hooks_clean"] = FnSpec(ret="r", ghost=True, sig="""
+    c["call_challenge_hooks_clean"] = FnSpec(ret="r", ghost=True, body_start="broadcast use crate::certificate::axiom_hooks_of_certificate;", sig="""
     ensures final(w).clock == old(w).clock, final(w).admissions == old(w).admissions, final(w).net == old(w).net,
         final(w).fs.files == old(w).fs.files, final(w).fs.modes == old(w).fs.modes,
         final(w).fs.events == old(w).fs.events.push(FsEvent::Hook { ty: crate::hooks::hook_type_id(hook_type), data: crate::hooks::hook_data_id(*data), ok: r is Ok }), //@C10.clean_hooks_get_the_recorded_data
 """)
-    c["call_post_operation_hooks"] = FnSpec(ret="r", ghost=True, sig="""
+    c["call_post_operation_hooks"] = FnSpec(ret="r", ghost=True, body_start="broadcast use crate::certificate::axiom_hooks_of_certificate;", sig="""
     ensures final(w).clock == old(w).clock, final(w).admissions == old(w).admissions, final(w).net == old(w).net,
         final(w).fs.files == old(w).fs.files, final(w).fs.modes == old(w).fs.modes,
         r is Ok ==> exists|d: PostOperationHookData| d.status@ == status@ && d.is_success == is_success
@@ -250,8 +250,11 @@ impl HookEnvData for PostOperationHookData {
             final(self).private_key_path == old(self).private_key_path,
     { unimplemented!() }
 }
+// the hooks of whoever runs them (a certificate runs its own list - never, say, the file hooks of its file manager)
+pub uninterp spec fn hooks_of<L>(l: &L) -> Seq<Hook>;
 #[verifier::external_body]
 pub fn call<L: HasLogger, T: HookEnvData>(logger: &L, hooks: &[Hook], data: &T, hook_type: HookType, Tracked(w): Tracked<&mut World>) -> (r: Result<(), Error>)
+    requires hooks@ == hooks_of(logger), //@C05.a_certificate_runs_its_own_hooks,C10.a_certificate_runs_its_own_hooks,C07.a_certificate_runs_its_own_hooks
     ensures final(w).clock == old(w).clock, final(w).admissions == old(w).admissions, final(w).net == old(w).net,
         final(w).fs.files == old(w).fs.files, final(w).fs.modes == old(w).fs.modes,
         final(w).fs.events == old(w).fs.events.push(FsEvent::Hook { ty: hook_type_id(hook_type), data: hook_data_id(*data), ok: r is Ok }),
@@ -267,6 +270,10 @@ pub uninterp spec fn path_ok(fm: FileManager, t: FileType) -> bool;
 SPEC = """
 broadcast use {vstd::string::to_string_from_display_ensures_for_str, crate::stdax2::axiom_to_string_string, crate::acme_proto::axiom_challenge_to_string};
 use crate::acme_proto::challenge_name;
+// a certificate's own hooks are the list it was configured with
+#[verifier::external_body]
+pub broadcast proof fn axiom_hooks_of_certificate(c: &Certificate)
+    ensures #[trigger] crate::hooks::hooks_of(c) == c.hooks@ {}
 // ---- which configured entry an authorization belongs to
 pub open spec fn exact_name(identifier: Seq<char>, wildcard: bool) -> Seq<char> { if wildcard { "*."@ + identifier } else { identifier } }
 pub open spec fn first_exact(ids: Seq<Identifier>, name: Seq<char>, i: int) -> bool {
